@@ -160,11 +160,28 @@ example : let s := run .fixed init [.srcRecv 1, .qSet 1 true, .memAdd 1 true, .c
 ENOENT, cancellation, EOF, …) a failed source fetch, a failed read or a failed destination write
 never lets `copyBlob` return nil and never changes the destination – so (by `step`) the copy ends in
 phase `failed`, `qDel` is not enabled and the row and the pending entry stay. -/
-theorem C19_failed_transfer_keeps_row (src : List Nat) (dst : List (Nat × Nat)) (i : Nat) (k : ErrKind) :
+theorem C19_failed_transfer_keeps_row (src : List Nat) (dst : List (Nat × Nat)) (i : Nat) (k : ErrKind)
+    (hne : i ≠ emptyBlob) :
     xfer src dst i (.fetchErr k) = (dst, false) ∧ xfer src dst i (.shortRead k) = (dst, false) ∧
     xfer src dst i .readEmpty = (dst, false) ∧ xfer src dst i .fetchSize = (dst, false) ∧
     xfer src dst i (.destErr k) = (dst, false) ∧ xfer src dst i .corrupt = (dst, false) := by
-  by_cases h : i ∈ src <;> simp [xfer, h, fetched, hashMatches]
+  by_cases h : i ∈ src <;> simp [xfer, h, fetched, hashMatches, hne]
+
+/-- the zero-length blob: a failed fetch, a size mismatch, a failed destination write still keep the
+row; a *read* failure cannot happen (zero bytes are read without touching the reader), so those
+outcomes are the clean copy – and the empty blob is delivered like any other -/
+theorem C19_empty_blob_transfer (src : List Nat) (dst : List (Nat × Nat)) (k : ErrKind) :
+    xfer src dst emptyBlob (.fetchErr k) = (dst, false) ∧ xfer src dst emptyBlob .fetchSize = (dst, false) ∧
+    xfer src dst emptyBlob (.destErr k) = (dst, false) ∧ xfer src dst emptyBlob .corrupt = (dst, false) ∧
+    xfer src dst emptyBlob (.shortRead k) = xfer src dst emptyBlob .ok ∧
+    xfer src dst emptyBlob .readEmpty = xfer src dst emptyBlob .ok := by
+  by_cases h : emptyBlob ∈ src <;> simp [xfer, h, fetched, hashMatches]
+
+/-- a pending empty blob that is the ONLY pending item is delivered by the failure-free continuation
+like any other (first upload; alone after the others were delivered; only row at a restart) -/
+example : dstIds (recover .fixed (run .fixed init [.srcRecv emptyBlob, .qSet emptyBlob true, .memAdd emptyBlob true])) = [emptyBlob] ∧
+    dstIds (recover .fixed (run .fixed init ([.srcRecv 2, .qSet 2 true, .memAdd 2 true] ++ copyOkSteps 2 ++
+      [.srcRecv emptyBlob, .qSet emptyBlob true, .memAdd emptyBlob true, .restart]))) = [2, emptyBlob] := by decide
 
 /-- the same on a whole copy attempt: for every error kind, after `cpStart; cpXfer (fetchErr k); cpEnd`
 (the deferred `setError(err)`) the row, the pending entry and the destination are as before -/
